@@ -445,6 +445,11 @@ class StereoCondensedReactionGraph(StereoMolGraph, CondensedReactionGraph):
                     for change, stereo in stereo_change.items()
                 }
                 enantiomer.set_atom_stereo_change(**stereo_change_inverted)
+        for bond, bond_change_dict in self._bond_stereo_change.items():
+            enantiomer._bond_stereo_change[bond] = ChangeDict(
+                (change, stereo.invert() if stereo else None)
+                for change, stereo in bond_change_dict.items()
+            )
         return enantiomer
 
     def _to_rdmol(
